@@ -151,6 +151,7 @@ func (p *flagParser) validateConfig() error {
 
 func (p *flagParser) parse() (interface{}, error) {
 	var values []interface{}
+	whole := p.input
 
 	for {
 		// Enable building arrays when commas separate top level elements by default.
@@ -168,6 +169,13 @@ func (p *flagParser) parse() (interface{}, error) {
 		p.ignoreWhitespace()
 		if p.input == "" {
 			break
+		}
+
+		if p.cfg.IgnoreCommas && p.input[0] == ',' {
+			// commas do not separate values: what looked like a complete quoted
+			// string, array or object was only the beginning of the text, which
+			// is one literal string, exactly like text that starts unquoted
+			return whole, nil
 		}
 
 		if err := p.expectChar(','); err != nil {
